@@ -2,7 +2,7 @@ From E2V Require Import FileIO.FileBuf.
 From Coq Require Import ZifyBool ZifyNat.
 
 (* content of a byte position regardless of the file size *)
-Definition raw (s : fst) (i : nat) : nat :=
+Definition raw (s : fstate) (i : nat) : nat :=
   let b := i / bs s in
   if valid s && Nat.eqb (bno s) b then buf s (i mod bs s)
   else match bmap s b with Some p => disk s p (i mod bs s) | None => 0 end.
@@ -10,7 +10,7 @@ Definition raw (s : fst) (i : nat) : nat :=
 Lemma view_raw s i : view s i = if fsize s <=? i then 0 else raw s i.
 Proof. reflexivity. Qed.
 
-Record Inv (s : fst) : Prop := {
+Record Inv (s : fstate) : Prop := {
   i_bs : 0 < bs s;
   (* a clean valid buffer equals what the map says *)
   i_clean : valid s = true -> dirty s = false ->
@@ -135,4 +135,259 @@ Proof.
     + apply (i_fresh s I).
     + intros i Hi. specialize (R i). unfold raw in R |- *. cbn in R |- *. rewrite R.
       change (raw s i = 0). apply (i_tail s I). exact Hi.
+Qed.
+
+(* ---- one round of a write ---- *)
+Lemma div_block b bs0 o : 0 < bs0 -> o < bs0 -> (b * bs0 + o) / bs0 = b /\ (b * bs0 + o) mod bs0 = o.
+Proof.
+  intros Hb Ho. split.
+  - rewrite Nat.add_comm, Nat.div_add by lia. rewrite Nat.div_small by assumption. reflexivity.
+  - rewrite Nat.add_comm, Nat.mod_add by lia. apply Nat.mod_small. assumption.
+Qed.
+
+Lemma pos_split i bs0 : 0 < bs0 -> i = (i / bs0) * bs0 + i mod bs0 /\ i mod bs0 < bs0.
+Proof. intros H. split; [rewrite Nat.mul_comm; apply Nat.div_mod; lia|apply Nat.mod_upper_bound; lia]. Qed.
+
+Lemma write_round_spec s b start c data : Inv s -> 0 < c -> start + c <= bs s ->
+  let s' := write_round s b start c data in
+  Inv s' /\ bs s' = bs s /\ fsize s' = Nat.max (fsize s) (b * bs s + start + c) /\
+  forall i, raw s' i = if (b * bs s + start <=? i) && (i <? b * bs s + start + c) then data (i - (b * bs s + start)) else raw s i.
+Proof.
+  intros I Hc Hsc.
+  destruct (sync_inv s b I) as (I0 & B0 & BS0 & FS0). pose proof (sync_raw s b I) as R0.
+  set (s0 := sync_to s b) in *.
+  pose proof (i_bs s I) as Hbs.
+  (* the state after load, whatever dontfill is *)
+  set (df := Nat.eqb c (bs s)).
+  set (s1 := load s0 df).
+  assert (L : bno s1 = b /\ valid s1 = true /\ phys s1 = bmap s0 b /\ bmap s1 = bmap s0 /\ disk s1 = disk s0 /\
+              fresh s1 = fresh s0 /\ bs s1 = bs s /\ fsize s1 = fsize s /\
+              (df = false -> forall o, o < bs s -> buf s1 o = raw s0 (b * bs s + o))).
+  { unfold s1, load. destruct (valid s0) eqn:V.
+    - repeat split; auto. { rewrite <- B0. apply (i_phys s0 I0 V). }
+      intros _ o Ho. unfold raw. rewrite BS0. destruct (div_block b (bs s) o Hbs Ho) as [D1 D2]. rewrite D1, D2, V, B0, Nat.eqb_refl. reflexivity.
+    - cbn. rewrite B0. repeat split; auto.
+      intros Hdf o Ho. rewrite Hdf. unfold raw. rewrite BS0. destruct (div_block b (bs s) o Hbs Ho) as [D1 D2]. rewrite D1, D2, V. cbn [andb].
+      destruct (bmap s0 b); reflexivity. }
+  destruct L as (L1 & L2 & L3 & L4 & L5 & L6 & L7 & L8 & L9).
+  (* when the whole block is written nothing of the old buffer survives *)
+  assert (Hfull : df = true -> start = 0 /\ c = bs s).
+  { unfold df. intros E. apply Nat.eqb_eq in E. lia. }
+  unfold write_round. fold s0. fold df. fold s1.
+  set (nb := fun o => if (start <=? o) && (o <? start + c) then data (o - start) else buf s1 o).
+  (* the byte of block b at offset o after the round *)
+  assert (NB : forall o, o < bs s -> nb o = if (start <=? o) && (o <? start + c) then data (o - start) else raw s (b * bs s + o)).
+  { intros o Ho. unfold nb. destruct ((start <=? o) && (o <? start + c)) eqn:E; [reflexivity|].
+    destruct df eqn:Hdf.
+    - destruct (Hfull eq_refl) as [-> ->]. lia.
+    - rewrite (L9 eq_refl o Ho). apply R0. }
+  destruct (phys s1) as [p|] eqn:Ph.
+  - (* already mapped *)
+    cbn [fst snd]. split; [|split; [reflexivity|split; [cbn; rewrite L8; reflexivity|]]].
+    + constructor; cbn.
+      * exact Hbs.
+      * discriminate.
+      * intros _. rewrite L4. rewrite <- L3. reflexivity.
+      * rewrite L4. apply (i_inj s0 I0).
+      * rewrite L4, L6. apply (i_fresh s0 I0).
+      * intros i Hi. unfold raw at 1; cbn [bs fsize bno valid dirty buf phys bmap disk fresh andb]. destruct (pos_split i (bs s) Hbs) as [Pi Pm].
+        destruct (Nat.eqb_spec b (i / bs s)) as [E|E].
+        -- rewrite NB by assumption. rewrite E, <- Pi.
+           replace ((start <=? i mod bs s) && (i mod bs s <? start + c)) with false by lia.
+           rewrite <- R0. apply (i_tail s0 I0). lia.
+        -- rewrite L4, L5. pose proof (i_tail s0 I0 i ltac:(lia)) as T. unfold raw in T. rewrite BS0, B0 in T.
+           destruct (valid s0); cbn [andb] in T; [destruct (Nat.eqb_spec b (i / bs s)); [contradiction|]|]; exact T.
+    + intros i. unfold raw at 1; cbn [bs fsize bno valid dirty buf phys bmap disk fresh andb]. destruct (pos_split i (bs s) Hbs) as [Pi Pm].
+      destruct (Nat.eqb_spec b (i / bs s)) as [E|E].
+      * rewrite NB by assumption. rewrite E, <- Pi.
+        replace ((i / bs s * bs s + start <=? i) && (i <? i / bs s * bs s + start + c)) with ((start <=? i mod bs s) && (i mod bs s <? start + c)) by lia.
+        destruct ((start <=? i mod bs s) && (i mod bs s <? start + c)); [f_equal; lia|reflexivity].
+      * replace ((b * bs s + start <=? i) && (i <? b * bs s + start + c)) with false by nia.
+        rewrite L4, L5. rewrite <- R0. unfold raw. rewrite BS0, B0.
+        destruct (valid s0); cbn [andb]; [destruct (Nat.eqb_spec b (i / bs s)); [contradiction|]|]; reflexivity.
+  - (* allocate *)
+    cbn [fst snd]. split; [|split; [reflexivity|split; [cbn; rewrite L8; reflexivity|]]].
+    + constructor; cbn.
+      * exact Hbs.
+      * discriminate.
+      * intros _. rewrite upd_same. reflexivity.
+      * rewrite L4, L6. intros l1 l2 q H1 H2. unfold upd in H1, H2.
+        destruct (Nat.eqb_spec l1 b) as [E1|E1]; destruct (Nat.eqb_spec l2 b) as [E2|E2]; try congruence.
+        -- inversion H1; subst q. pose proof (i_fresh s0 I0 _ _ H2). lia.
+        -- inversion H2; subst q. pose proof (i_fresh s0 I0 _ _ H1). lia.
+        -- eapply (i_inj s0 I0); eassumption.
+      * rewrite L4, L6. intros l q H. unfold upd in H. destruct (Nat.eqb_spec l b); [inversion H; lia|]. pose proof (i_fresh s0 I0 _ _ H). lia.
+      * intros i Hi. unfold raw at 1; cbn [bs fsize bno valid dirty buf phys bmap disk fresh andb]. destruct (pos_split i (bs s) Hbs) as [Pi Pm].
+        destruct (Nat.eqb_spec b (i / bs s)) as [E|E].
+        -- rewrite NB by assumption. rewrite E, <- Pi.
+           replace ((start <=? i mod bs s) && (i mod bs s <? start + c)) with false by lia.
+           rewrite <- R0. apply (i_tail s0 I0). lia.
+        -- rewrite L4, L5. rewrite upd_other by (intro; apply E; symmetry; assumption).
+           pose proof (i_tail s0 I0 i ltac:(lia)) as T. unfold raw in T. rewrite BS0, B0 in T.
+           destruct (valid s0); cbn [andb] in T; [destruct (Nat.eqb_spec b (i / bs s)); [contradiction|]|]; exact T.
+    + intros i. unfold raw at 1; cbn [bs fsize bno valid dirty buf phys bmap disk fresh andb]. destruct (pos_split i (bs s) Hbs) as [Pi Pm].
+      destruct (Nat.eqb_spec b (i / bs s)) as [E|E].
+      * rewrite NB by assumption. rewrite E, <- Pi.
+        replace ((i / bs s * bs s + start <=? i) && (i <? i / bs s * bs s + start + c)) with ((start <=? i mod bs s) && (i mod bs s <? start + c)) by lia.
+        destruct ((start <=? i mod bs s) && (i mod bs s <? start + c)); [f_equal; lia|reflexivity].
+      * replace ((b * bs s + start <=? i) && (i <? b * bs s + start + c)) with false by nia.
+        rewrite L4, L5. rewrite upd_other by (intro; apply E; symmetry; assumption).
+        rewrite <- R0. unfold raw. rewrite BS0, B0.
+        destruct (valid s0); cbn [andb]; [destruct (Nat.eqb_spec b (i / bs s)); [contradiction|]|]; reflexivity.
+Qed.
+
+(* ---- one round of a read ---- *)
+Lemma read_round_spec s b : Inv s ->
+  let '(s', blk) := read_round s b in
+  Inv s' /\ bs s' = bs s /\ fsize s' = fsize s /\ (forall i, raw s' i = raw s i) /\
+  forall o, o < bs s -> blk o = raw s (b * bs s + o).
+Proof.
+  intros I. unfold read_round.
+  destruct (sync_inv s b I) as (I0 & B0 & BS0 & FS0). pose proof (sync_raw s b I) as R0.
+  destruct (load_inv _ I0) as (I1 & V1 & B1 & BS1 & FS1 & _).
+  pose proof (load_raw _ I0) as R1.
+  split; [exact I1|]. split; [congruence|]. split; [congruence|]. split; [intros i; rewrite R1; apply R0|].
+  intros o Ho. rewrite <- R0, <- R1. unfold raw.
+  pose proof (i_bs s I) as Hbs.
+  rewrite BS1, BS0. destruct (div_block b (bs s) o Hbs Ho) as [D1 D2]. rewrite D1, D2, V1, B1, B0, Nat.eqb_refl. reflexivity.
+Qed.
+
+(* ---- set_size ---- *)
+Definition tail_zeroed (s : fstate) (n : nat) : Prop :=
+  forall i, n <= i -> i < (n / bs s + 1) * bs s -> n mod bs s <> 0 -> raw s i = 0.
+
+Lemma zero_part_spec s pb n : Inv s ->
+  let s1 := zero_part s pb n in
+  bs s1 = bs s /\ fsize s1 = fsize s /\
+  (forall i, raw s1 i = if (n <=? i) && (i <? (n / bs s + 1) * bs s) && negb (n mod bs s =? 0) then 0 else raw s i) /\
+  (* everything of the invariant except the tail clause, which is restated for the old size *)
+  (valid s1 = true -> dirty s1 = false -> forall o, o < bs s1 -> buf s1 o = match bmap s1 (bno s1) with Some p => disk s1 p o | None => 0 end) /\
+  (valid s1 = true -> phys s1 = bmap s1 (bno s1)) /\
+  (forall l1 l2 p, bmap s1 l1 = Some p -> bmap s1 l2 = Some p -> l1 = l2) /\
+  (forall l p, bmap s1 l = Some p -> p < fresh s1).
+Proof.
+  intros I. pose proof (i_bs s I) as Hbs. unfold zero_part.
+  destruct (Nat.eqb_spec (n mod bs s) 0) as [Z|Z].
+  - cbn zeta. split; [reflexivity|]. split; [reflexivity|]. split.
+    + intros i. rewrite Bool.andb_false_r. reflexivity.
+    + split; [apply (i_clean s I)|]. split; [apply (i_phys s I)|]. split; [apply (i_inj s I)|apply (i_fresh s I)].
+  - destruct (sync_inv s pb I) as (I0 & B0 & BS0 & FS0). pose proof (sync_raw s pb I) as R0.
+    set (s0 := sync_to s pb) in *. cbn zeta.
+    set (b := n / bs s). set (off := n mod bs s) in *.
+    split; [exact BS0|]. split; [exact FS0|].
+    assert (RAW : forall i, raw (mkF (bs s0) (fsize s0) (bno s0) (valid s0) (dirty s0)
+                                   (if valid s0 && Nat.eqb (bno s0) b then zero_tail (buf s0) off else buf s0) (phys s0) (bmap s0)
+                                   (match bmap s0 b with Some p => upd (disk s0) p (zero_tail (disk s0 p) off) | None => disk s0 end) (fresh s0)) i =
+                          if (n <=? i) && (i <? (b + 1) * bs s) then 0 else raw s i).
+    { intros i. rewrite <- R0. unfold raw. cbn [bs fsize bno valid dirty buf phys bmap disk fresh]. rewrite BS0.
+      destruct (pos_split i (bs s) Hbs) as [Pi Pm]. destruct (pos_split n (bs s) Hbs) as [Pn Pnm]. fold b off in Pn, Pnm.
+      destruct (Nat.eq_dec (i / bs s) b) as [Eb|Eb].
+      - (* the block that holds the new end *)
+        rewrite Eb. replace ((n <=? i) && (i <? (b + 1) * bs s)) with (off <=? i mod bs s) by nia.
+        destruct (valid s0 && Nat.eqb (bno s0) b) eqn:VB.
+        + unfold zero_tail. destruct (off <=? i mod bs s); reflexivity.
+        + destruct (bmap s0 b) as [p|] eqn:M.
+          * rewrite upd_same. unfold zero_tail. destruct (off <=? i mod bs s); reflexivity.
+          * destruct (off <=? i mod bs s); reflexivity.
+      - replace ((n <=? i) && (i <? (b + 1) * bs s)) with false by nia.
+        destruct (valid s0 && Nat.eqb (bno s0) (i / bs s)) eqn:VB.
+        + apply andb_true_iff in VB as [V E]. apply Nat.eqb_eq in E.
+          replace (Nat.eqb (bno s0) b) with false by (symmetry; apply Nat.eqb_neq; congruence).
+          rewrite Bool.andb_false_r. reflexivity.
+        + destruct (bmap s0 (i / bs s)) as [q|] eqn:Mq; [|reflexivity].
+          destruct (bmap s0 b) as [p|] eqn:M; [|reflexivity].
+          rewrite upd_other; [reflexivity|]. intros ->. apply Eb. eapply (i_inj s0 I0); eassumption. }
+    split.
+    { intros i. rewrite RAW. fold b off. replace (negb (off =? 0)) with true by (symmetry; apply negb_true_iff, Nat.eqb_neq; exact Z).
+      rewrite Bool.andb_true_r. reflexivity. }
+    cbn [bs fsize bno valid dirty buf phys bmap disk fresh].
+    split.
+    { intros V D o Ho. destruct (Nat.eqb_spec (bno s0) b) as [E|E].
+      - rewrite V. cbn [andb]. rewrite E. pose proof (i_clean s0 I0 V D o Ho) as C. rewrite E in C.
+        destruct (bmap s0 b) as [p|] eqn:M.
+        + rewrite upd_same. unfold zero_tail. rewrite C. reflexivity.
+        + unfold zero_tail. rewrite C. destruct (off <=? o); reflexivity.
+      - rewrite Bool.andb_false_r. pose proof (i_clean s0 I0 V D o Ho) as C. rewrite C.
+        destruct (bmap s0 (bno s0)) as [q|] eqn:Mq; [|reflexivity].
+        destruct (bmap s0 b) as [p|] eqn:M; [|reflexivity].
+        rewrite upd_other; [reflexivity|]. intros ->. apply E. eapply (i_inj s0 I0); eassumption. }
+    split; [apply (i_phys s0 I0)|]. split; [apply (i_inj s0 I0)|apply (i_fresh s0 I0)].
+Qed.
+
+Lemma ceil_block n bs0 : 0 < bs0 -> let tb := (n + bs0 - 1) / bs0 in (tb * bs0 >= n) /\ (n mod bs0 = 0 -> tb = n / bs0) /\ (n mod bs0 <> 0 -> tb = n / bs0 + 1).
+Proof.
+  intros Hb tb. unfold tb. destruct (pos_split n bs0 Hb) as [Pn Pm].
+  set (q := n / bs0) in *. set (r := n mod bs0) in *.
+  destruct (Nat.eq_dec r 0) as [Z|Z].
+  - assert (E : (n + bs0 - 1) / bs0 = q).
+    { rewrite Pn, Z. replace (q * bs0 + 0 + bs0 - 1) with (bs0 - 1 + q * bs0) by lia. rewrite Nat.div_add by lia. rewrite Nat.div_small by lia. lia. }
+    rewrite E. split; [lia|]. split; [reflexivity|contradiction].
+  - assert (E : (n + bs0 - 1) / bs0 = q + 1).
+    { rewrite Pn. replace (q * bs0 + r + bs0 - 1) with ((r - 1) + (q + 1) * bs0) by lia. rewrite Nat.div_add by lia. rewrite Nat.div_small by lia. lia. }
+    rewrite E. split; [nia|]. split; [contradiction|reflexivity].
+Qed.
+
+Lemma set_size_spec s pb n : Inv s ->
+  let s' := set_size s pb n in
+  Inv s' /\ bs s' = bs s /\ fsize s' = n /\ forall i, raw s' i = if i <? n then raw s i else 0.
+Proof.
+  intros I. pose proof (i_bs s I) as Hbs. unfold set_size.
+  destruct (zero_part_spec s pb n I) as (Z1 & Z2 & RAW1 & CL1 & PH1 & INJ1 & FR1).
+  set (s1 := zero_part s pb n) in *.
+  unfold trunc_part. rewrite Z1.
+  set (tb := (n + bs s - 1) / bs s). set (otb := (fsize s + bs s - 1) / bs s).
+  destruct (ceil_block n (bs s) Hbs) as (T1 & T2 & T3). fold tb in T1, T2, T3.
+  destruct (ceil_block (fsize s) (bs s) Hbs) as (O1 & _ & _). fold otb in O1.
+  destruct (pos_split n (bs s) Hbs) as [Pn Pnm].
+  (* the bytes after the zeroing, relative to the old state *)
+  assert (R1 : forall i, i < n -> raw s1 i = raw s i).
+  { intros i Hi. rewrite RAW1. replace (n <=? i) with false by lia. reflexivity. }
+  assert (R2 : forall i, n <= i -> i < tb * bs s -> raw s1 i = 0).
+  { intros i H1 H2. rewrite RAW1. destruct (Nat.eq_dec (n mod bs s) 0) as [Z|Z].
+    - rewrite (T2 Z) in H2. nia.
+    - rewrite (T3 Z) in H2. replace ((n <=? i) && (i <? (n / bs s + 1) * bs s) && negb (n mod bs s =? 0)) with true by lia. reflexivity. }
+  destruct (tb <? otb) eqn:SH.
+  - (* blocks go away *)
+    assert (RAW : forall i, raw (mkF (bs s) n (bno s1) (if tb <=? bno s1 then false else valid s1) (if tb <=? bno s1 then false else dirty s1)
+                                    (buf s1) (if tb <=? bno s1 then None else phys s1) (fun l => if tb <=? l then None else bmap s1 l) (disk s1) (fresh s1)) i =
+                             if i <? n then raw s i else 0).
+    { intros i. unfold raw at 1. cbn [bs fsize bno valid dirty buf phys bmap disk fresh].
+      destruct (pos_split i (bs s) Hbs) as [Pi Pm].
+      destruct (Nat.leb_spec tb (i / bs s)) as [G|G].
+      - replace (i <? n) with false by nia.
+        destruct (Nat.leb_spec tb (bno s1)); cbn [andb]; [reflexivity|].
+        destruct (valid s1); cbn [andb]; [|reflexivity]. destruct (Nat.eqb_spec (bno s1) (i / bs s)); [lia|reflexivity].
+      - assert (Hi : i < tb * bs s) by nia.
+        assert (E : raw s1 i = (if (if tb <=? bno s1 then false else valid s1) && Nat.eqb (bno s1) (i / bs s) then buf s1 (i mod bs s)
+                               else match bmap s1 (i / bs s) with Some p => disk s1 p (i mod bs s) | None => 0 end)).
+        { unfold raw. rewrite Z1. destruct (Nat.leb_spec tb (bno s1)) as [G2|G2]; [|reflexivity].
+          destruct (Nat.eqb_spec (bno s1) (i / bs s)); [lia|]. rewrite Bool.andb_false_r. reflexivity. }
+        rewrite <- E. destruct (Nat.ltb_spec i n) as [L|L]; [apply R1; assumption|apply R2; assumption]. }
+    split; [|split; [reflexivity|split; [reflexivity|exact RAW]]].
+    constructor; cbn [bs fsize bno valid dirty buf phys bmap disk fresh].
+    + exact Hbs.
+    + destruct (Nat.leb_spec tb (bno s1)) as [G|G]; [discriminate|]. intros V D o Ho. rewrite <- Z1 in Ho. apply (CL1 V D o Ho).
+    + destruct (Nat.leb_spec tb (bno s1)) as [G|G]; [discriminate|]. exact PH1.
+    + intros l1 l2 p H1 H2. destruct (tb <=? l1); [discriminate|]. destruct (tb <=? l2); [discriminate|]. eapply INJ1; eassumption.
+    + intros l p H. destruct (tb <=? l); [discriminate|]. eapply FR1; eassumption.
+    + intros i Hi. rewrite RAW. replace (i <? n) with false by lia. reflexivity.
+  - (* no block goes away: growth, or a new end inside the same last block *)
+    assert (RAW : forall i, raw (mkF (bs s) n (bno s1) (valid s1) (dirty s1) (buf s1) (phys s1) (bmap s1) (disk s1) (fresh s1)) i =
+                             if i <? n then raw s i else 0).
+    { intros i. assert (E : raw (mkF (bs s) n (bno s1) (valid s1) (dirty s1) (buf s1) (phys s1) (bmap s1) (disk s1) (fresh s1)) i = raw s1 i)
+        by (unfold raw; cbn [bs fsize bno valid dirty buf phys bmap disk fresh]; rewrite Z1; reflexivity).
+      rewrite E. destruct (Nat.ltb_spec i n) as [L|L]; [apply R1; assumption|].
+      destruct (Nat.lt_ge_cases i (tb * bs s)) as [H|H]; [apply R2; assumption|].
+      rewrite RAW1. replace ((n <=? i) && (i <? (n / bs s + 1) * bs s) && negb (n mod bs s =? 0)) with false.
+      + apply (i_tail s I). nia.
+      + destruct (Nat.eq_dec (n mod bs s) 0) as [Z|Z]; [replace (n mod bs s =? 0) with true by lia; rewrite Bool.andb_false_r; reflexivity|].
+        rewrite (T3 Z) in H. replace (i <? (n / bs s + 1) * bs s) with false by lia. rewrite Bool.andb_false_r. reflexivity. }
+    split; [|split; [reflexivity|split; [reflexivity|exact RAW]]].
+    constructor; cbn [bs fsize bno valid dirty buf phys bmap disk fresh].
+    + exact Hbs.
+    + intros V D o Ho. rewrite <- Z1 in Ho. apply (CL1 V D o Ho).
+    + exact PH1.
+    + exact INJ1.
+    + exact FR1.
+    + intros i Hi. rewrite RAW. replace (i <? n) with false by lia. reflexivity.
 Qed.
